@@ -121,7 +121,11 @@ structure NameRec where
   src : Bool
 deriving Repr, DecidableEq, Lean.FromJson, Lean.ToJson
 
-def str (b : Bytes) : String := String.ofList (b.map Char.ofNat)
+/-- bytes back to a string for the observation: UTF-8 when well formed, else one char per byte -/
+def str (b : Bytes) : String :=
+  match String.fromUTF8? (ByteArray.mk (b.map UInt8.ofNat).toArray) with
+  | some s => s
+  | none => String.ofList (b.map Char.ofNat)
 
 structure Side where
   camel : Bytes → Bytes
